@@ -112,6 +112,10 @@ pub enum Val {
         prefix: Vec<u8>,
         #[serde(with = "crate::case::hexbytes")]
         emission: Vec<u8>,
+        /// further post_process calls on the same buffer with the same snapshot (what the dispatch loop does
+        /// when the list names the mutator more than once)
+        #[serde(default)]
+        again: u8,
     },
 }
 
@@ -171,7 +175,7 @@ pub fn do_call(c: &Call) -> Result<Res, String> {
             Val::Str(s) => m.mutate_string(s.clone(), g, rate).map(Res::Str).unwrap_or(Res::None),
             Val::Bytes(b) => m.mutate_bytes(b.clone(), g, rate).map(Res::Bytes).unwrap_or(Res::None),
             Val::Memo(i) => m.mutate_memo_index(*i, g, rate).map(Res::Memo).unwrap_or(Res::None),
-            Val::Post { prefix, emission } => {
+            Val::Post { prefix, emission, again } => {
                 let mut output = prefix.clone();
                 output.extend_from_slice(emission);
                 let snap = EmissionSnapshot {
@@ -182,7 +186,10 @@ pub fn do_call(c: &Call) -> Result<Res, String> {
                     output_delta: emission.clone(),
                     memo_delta: Vec::new(),
                 };
-                let ret = m.post_process(&snap, &mut output, g, rate);
+                let mut ret = m.post_process(&snap, &mut output, g, rate);
+                for _ in 0..*again {
+                    ret |= m.post_process(&snap, &mut output, g, rate);
+                }
                 Res::Post { ret, output }
             }
         })
@@ -433,7 +440,7 @@ pub fn c16_contract(c: &Call, r: &Res) -> Result<(), Fail> {
             }
             Ok(())
         }
-        (MutK::Typeconfusion, Val::Post { prefix, emission }, Res::Post { ret, output }) => {
+        (MutK::Typeconfusion, Val::Post { prefix, emission, .. }, Res::Post { ret, output }) => {
             if output.len() < prefix.len() || output[..prefix.len()] != prefix[..] {
                 return bad("prefix-touched", "bytes before the emission were modified".into());
             }
@@ -476,7 +483,7 @@ pub fn c16_contract(c: &Call, r: &Res) -> Result<(), Fail> {
             }
         }
         // post_process of every other mutator is documented to do nothing
-        (_, Val::Post { prefix, emission }, Res::Post { ret, output }) => {
+        (_, Val::Post { prefix, emission, .. }, Res::Post { ret, output }) => {
             let mut o = prefix.clone();
             o.extend_from_slice(emission);
             if *ret || *output != o {
@@ -533,8 +540,8 @@ fn memo_strategy() -> BoxedStrategy<usize> {
 }
 
 fn post_strategy() -> BoxedStrategy<Val> {
-    (any::<u8>(), any::<u8>(), proptest::collection::vec(any::<u8>(), 0..12))
-        .prop_map(|(code, variant, prefix)| Val::Post { prefix, emission: wellformed_emission(code, variant) })
+    (any::<u8>(), any::<u8>(), proptest::collection::vec(any::<u8>(), 0..12), prop_oneof![3 => Just(0u8), 2 => Just(1u8), 1 => Just(2u8)])
+        .prop_map(|(code, variant, prefix, again)| Val::Post { prefix, emission: wellformed_emission(code, variant), again })
         .boxed()
 }
 
@@ -635,7 +642,7 @@ pub fn run_c16(ctx: &Ctx) -> Outcome {
                     items.push(Call {
                         mutator: MutK::Typeconfusion,
                         unsafe_mode: true,
-                        val: Val::Post { prefix: vec![0x80, 4], emission: wellformed_emission(code, variant) },
+                        val: Val::Post { prefix: vec![0x80, 4], emission: wellformed_emission(code, variant), again: 0 },
                         rate_bits: 1.0f64.to_bits(),
                         src: s.clone(),
                     });
@@ -719,7 +726,7 @@ pub fn check_c15_direct(ctx: &Ctx, c: &Call, st: &mut Stats) -> Result<(), Fail>
     };
     let fired = !matches!(r, Res::None | Res::Post { ret: false, .. });
     let changed = match (&c.val, &r) {
-        (Val::Post { prefix, emission }, Res::Post { output, .. }) => {
+        (Val::Post { prefix, emission, .. }, Res::Post { output, .. }) => {
             let mut o = prefix.clone();
             o.extend_from_slice(emission);
             *output != o
